@@ -6,7 +6,12 @@ From GMS Require Import Phys.C07HashKey.
 (* rune weights used by the correspondence: code point (binary collations) or ASCII case folding (the generated
    strings are ASCII; only equality of weights matters) *)
 Definition w_bin (c : N) : N := c.
-Definition w_ci (c : N) : N := if (N.leb 65 c && N.leb c 90)%bool then (c + 32)%N else c.
+(* case folding of A-Z and of the accented letters the generator uses (base letter, lower case) *)
+Definition w_ci (c : N) : N :=
+  if (N.leb 65 c && N.leb c 90)%bool then (c + 32)%N
+  else if (N.eqb c 233 || N.eqb c 232 || N.eqb c 234 || N.eqb c 235 || N.eqb c 201 || N.eqb c 200 || N.eqb c 202 || N.eqb c 203)%bool then 101%N
+  else if (N.eqb c 225 || N.eqb c 224 || N.eqb c 228 || N.eqb c 193 || N.eqb c 192 || N.eqb c 196)%bool then 97%N
+  else c.
 Definition wsel (ci : bool) : N -> N := if ci then w_ci else w_bin.
 
 Inductive case :=
@@ -14,6 +19,8 @@ Inductive case :=
 | PairCase (ci : bool) (sch : list hcol) (r1 r2 : list hv) (same : bool)
 (* number of rows an operator keeps for the input values: GROUP BY (schema) / DISTINCT, UNION (no schema) *)
 | DedupCase (ci : bool) (c : hcol) (vals : list hv) (count : N)
+(* number of rows an operator keeps for multi-column input rows (row keys with the NUL separator) *)
+| DedupRowsCase (ci : bool) (sch : list hcol) (rows : list (list hv)) (count : N)
 (* COUNT(DISTINCT ...) over rows *)
 | CdCase (rows : list (list hv)) (count : N).
 
@@ -23,6 +30,8 @@ Definition ok (c : case) : bool :=
       Bool.eqb (bytes_eqb (row_key (wsel ci) sch r1) (row_key (wsel ci) sch r2)) same
   | DedupCase ci c vals count =>
       N.eqb (N.of_nat (length (dedup (key1 (wsel ci) c) bytes_eqb vals))) count
+  | DedupRowsCase ci sch rows count =>
+      N.eqb (N.of_nat (length (dedup (row_key (wsel ci) sch) bytes_eqb rows))) count
   | CdCase rows count =>
       N.eqb (N.of_nat (length (dedup cd_key bytes_eqb rows))) count
   end.
